@@ -265,6 +265,14 @@ func gen(r *lib.Rand, tier, stream string, i int) History {
 	if stream == "static" {
 		return genStatic(i)
 	}
+	return genHistoryIdx(r, tier, stream, i)
+}
+
+// genHistoryIdx: every third case of a replica stream is a history of the service-stress family.
+func genHistoryIdx(r *lib.Rand, tier, stream string, i int) History {
+	if i%3 == 2 {
+		return genServiceStress(r, tier, stream)
+	}
 	return genHistory(r, tier, stream)
 }
 
@@ -447,7 +455,7 @@ func showCmd(args []string) {
 	stream := fs.String("stream", "repeat", "")
 	idx := fs.Int("idx", 0, "")
 	_ = fs.Parse(args)
-	h := genHistory(lib.NewRand(*seed).Sub(uint64(*idx)), "quick", *stream)
+	h := genHistoryIdx(lib.NewRand(*seed).Sub(uint64(*idx)), "quick", *stream, *idx)
 	debugErrors = true
 	var out *replicaOut
 	if *stream == "abci" {
